@@ -176,7 +176,7 @@ def scenarios_from(sc, name, c, quick, seed, rng, out):
     c0 = dict(c)
     c0['MaxCrashes'] = 0          # crash points are enumerated on the real code by ordinal
     sc.write(f'X_{name}.cfg', cfg_text(c0, export=True, invariants=False))
-    res = run_tlc(sc, 'Index', f'X_{name}.cfg', simulate=f'num={400 if quick else 4000}', depth=90 if quick else 140,
+    res = run_tlc(sc, 'Index', f'X_{name}.cfg', simulate=f'num={400 if quick else 2000}', depth=90 if quick else 140,
                   seed=seed or 7, workers=8, timeout=900)
     # keep maximal histories only (a history printed at one catch-up is a prefix of the one printed at the next).  The
     # output of a thorough run is hundreds of megabytes: two streaming passes over it with chained hashes, nothing kept
@@ -232,7 +232,7 @@ def interesting(evs):
     return (kinds.count('fork') + kinds.count('switch') + kinds.count('force'), kinds.count('mine'), len(evs))
 
 
-TLC_BUDGET = int(os.environ.get('VERIF_TLC_BUDGET_S', '600'))     # thorough tier: breadth-first budget per configuration
+TLC_BUDGET = int(os.environ.get('VERIF_TLC_BUDGET_S', '300'))     # thorough tier: breadth-first budget per configuration
 SCAL_FIELDS = ('memh', 'txc', 'uc', 'nc', 'nd', 'nu', 'npu', 'hfc', 'dbh', 'fsh')
 
 
@@ -268,10 +268,10 @@ def check(pid, tier, seed):
                 out.coverage['exhaustive'] = False
                 # ... and random walks far beyond the breadth-first frontier, with the same invariants
                 sim = run_tlc(sc, 'Index', f'M_{name}.cfg', simulate='num=100000', depth=160, seed=seed or 11, workers=12,
-                              timeout=400, soft=True)
+                              timeout=150, soft=True)
                 if sim.violated:
                     out.notes.append(f'TLC (simulation): Index.tla violates {sim.violated} in {name}; verdict is taken from the replays')
-                out.notes.append(f'Index.tla {name}: simulation depth 160 for up to 400 s on top')
+                out.notes.append(f'Index.tla {name}: simulation depth 160 for up to 150 s on top')
             elif not res.no_error:
                 raise MachineryError(f'TLC did not finish {name}:\n{res.out[-1500:]}')
             out.add(states=res.distinct, transitions=res.generated)
@@ -279,16 +279,16 @@ def check(pid, tier, seed):
             # 2. scenarios
             scns = scenarios_from(sc, name, c, quick, seed, rng, out)
             scns.sort(key=interesting, reverse=True)
-            take = scns[:(30 if quick else 300)]
+            take = scns[:(30 if quick else 200)]
             rest = scns[len(take):]
             # a stratum of its own: several blocks fetched and advanced in one batch (no poll in between), the more
             # transactions in them the better - the property quantifies over every fetch batching
-            batched = sorted((e for e in rest if batch_weight(e)[0] >= 2), key=batch_weight, reverse=True)[:(20 if quick else 200)]
+            batched = sorted((e for e in rest if batch_weight(e)[0] >= 2), key=batch_weight, reverse=True)[:(20 if quick else 100)]
             take += batched
             ids_ = set(map(id, take))
             rest = [e for e in rest if id(e) not in ids_]
             rng.shuffle(rest)
-            take += rest[:(30 if quick else 300)]
+            take += rest[:(30 if quick else 200)]
             p = params_of(c)
             for evs in take:
                 jobs.append((evs, p, None, None, None))
